@@ -1,7 +1,7 @@
 (* C03 — the run-time oracle is the theorems' predicate: soundness of the boolean twins. *)
 From Coq Require Import List NArith ZArith Bool Lia.
 From FwdLib Require Import Bytes.
-From G03 Require Import Tables Tunnel TunnelProofs Abstract ReplyReader Check.
+From G03 Require Import Tables Tunnel TunnelProofs Abstract Weak ReplyReader Check.
 Import ListNotations.
 Open Scope N_scope.
 
@@ -46,13 +46,18 @@ Proof.
     pose proof (implb_true _ _ Hcl E) as K. apply andb_true_iff in K. exact K.
 Qed.
 
-(* the correspondence check means: the recorded trace is a run of the LTS from the observed switch-over state *)
+(* the correspondence check means: the recorded trace is a run of the LTS from the observed
+   switch-over state — or, when the dialled side is hidden behind TLS, the observable projection of one *)
 Lemma cmodel_ok_run c : cmodel_ok c = true ->
-  exists tr s, cc_trace c = Some tr /\
-               steps (tables_shape (cc_grace c)) (cinit c) tr s.
+  exists tr full s, cc_trace c = Some tr /\
+               steps (tables_shape (cc_grace c)) (cinit c) full s /\
+               (if cc_weak c then filter observable full = tr else full = tr).
 Proof.
   unfold cmodel_ok. intro H. apply andb_true_iff in H as [_ H].
   destruct (cc_trace c) as [tr|]; [|discriminate].
-  destruct (run (tables_shape (cc_grace c)) (cinit c) tr) as [s|] eqn:R; [|discriminate].
-  exists tr, s. split; [reflexivity|]. apply run_steps. exact R.
+  destruct (crun c tr) as [s|] eqn:R; [|discriminate].
+  unfold crun in R. destruct (cc_weak c).
+  - destruct (forallb observable tr) eqn:O; [|discriminate].
+    destruct (wrun_sound _ _ _ _ O R) as (full & S & P). exists tr, full, s. auto.
+  - exists tr, tr, s. split; [reflexivity|]. split; [apply run_steps; exact R | reflexivity].
 Qed.
